@@ -60,6 +60,8 @@ pub struct D2 {
     pub over_seq: u32,
     /// seq of every run-time replacement of the filterer
     pub filter_replaced: Vec<u32>,
+    /// a thread of the outside world panicked inside watchexec code (e.g. notify's thread in the event handler)
+    pub producer_panics: u32,
 }
 
 pub fn digest2(out: &RunOut) -> D2 {
@@ -76,6 +78,7 @@ pub fn digest2(out: &RunOut) -> D2 {
             Ev::EvTrySend { id, ok } => d.trysent.entry(*id).or_default().push((r.t, r.seq, *ok)),
             Ev::Filter { id, verdict } => d.filter.entry(*id).or_default().push((r.t, r.seq, *verdict)),
             Ev::CfgChange { what, .. } if what == "ReplaceFilterer" => d.filter_replaced.push(r.seq),
+            Ev::Note { what: "producer-panicked", .. } => d.producer_panics += 1,
             Ev::Batch { ids, .. } => d.batches.push((r.t, r.seq, ids.clone())),
             Ev::BatchEnd { .. } => d.batch_end.push((r.t, r.seq)),
             Ev::RtErr { msg, .. } => d.errs.push((r.t, r.seq, msg.clone())),
@@ -430,6 +433,9 @@ pub fn oracle_c15_events(scn: &E2Scn, d: &D2, stats: &mut Stats) -> Vec<Violatio
                 }
             }
         }
+    }
+    if d.producer_panics > 0 {
+        vs.push(Violation::new("caller-thread-panicked", "", format!("{} simulated outside thread(s) (watcher backend, signal handler, event sender) panicked inside watchexec code", d.producer_panics)));
     }
     // callback-path errors: at most once each
     let mut cb: BTreeMap<String, usize> = BTreeMap::new();
@@ -1500,6 +1506,16 @@ e2_check!(
         _ => {
             let mut s = gen_fswatch(rng, true);
             s.probe = true;
+            if rng.chance(1, 3) {
+                // a poll watcher that cannot scan some of its paths reports that from inside watch(), on the fs worker's
+                // own thread; with a small error queue and a slow handler the queue is full when it does
+                s.init_poll = Some(*rng.pick(&[50u64, 500]));
+                s.poll_scan_errors = (0..8u8).filter(|_| rng.chance(1, 2)).collect();
+                s.error_cap = *rng.pick(&[1u32, 2, 4]);
+                if rng.chance(1, 2) {
+                    s.err_plan.slow_ms = *rng.pick(&[60u64, 300]);
+                }
+            }
             s
         }
     },
